@@ -119,6 +119,7 @@ class Run:
         self.t_solver = 0.0
         self.held_locks = []
         self.ghost_sums = {}
+        self.elem_index = {}   # list sym -> [(index term, element object name)] for alias resolution of symbolic indices
         self.members = {}      # oid of an object -> oids of counter-tracked symbolic lists it was appended to
         self.abstractions = []
         self.input_types = {}
